@@ -6,20 +6,22 @@
 import Nstd.Generated.ArgsCode
 
 namespace Nstd.Args.Tie
-open Nstd.Args Nstd.Args.C Nstd.Args.Gen
+open Nstd.Args Nstd.Args.C
 
 /-- the pointer `arg` of a model state -/
-def ptrOf (st : St) : Ptr :=
+def blkOf (st : St) : Blk :=
   match st.blk with
-  | none => .mk .lit st.off
-  | some i => .mk (.word i) st.off
+  | none => .lit
+  | some i => .word i
+
+def ptrOf (st : St) : Ptr := .mk (blkOf st) st.off
 
 /-- the memory of an `Arguments` object: the argv words and the option table -/
-def envOf (opts : List Opt) (argv : List Buf) : Env := { argv := argv, opts := opts, cmd := [] }
+def memOf (opts : List Opt) (argv : List Buf) : Env := { argv := argv, opts := opts, cmd := [] }
 
 /-- `s` represents the model state `st`: the data members of the object are the components of `st`
     (`argv`, `argvEnd`, `options`, `optionsEnd` as indices) -/
-structure Rep (opts : List Opt) (st : St) (s : RS) : Prop where
+structure Rep (opts : List Opt) (st : St) (s : Gen.RS) : Prop where
   argv : s.argv = st.cur
   argvEnd : s.argvEnd = st.argv.length
   options : s.options = 0
@@ -29,15 +31,15 @@ structure Rep (opts : List Opt) (st : St) (s : RS) : Prop where
   skipOpt : s.skipOpt = st.skipOpt
 
 /-- the object that represents `st`; parameters and locals (no member) are taken from `base` -/
-def embed (opts : List Opt) (st : St) (base : RS) : RS :=
+def embed (opts : List Opt) (st : St) (base : Gen.RS) : Gen.RS :=
   { base with argv := st.cur, argvEnd := st.argv.length, options := 0, optionsEnd := opts.length,
               arg := ptrOf st, inOpt := st.inOpt, skipOpt := st.skipOpt }
 
-theorem rep_embed (opts : List Opt) (st : St) (base : RS) : Rep opts st (embed opts st base) :=
+theorem rep_embed (opts : List Opt) (st : St) (base : Gen.RS) : Rep opts st (embed opts st base) :=
   ⟨rfl, rfl, rfl, rfl, rfl, rfl, rfl⟩
 
 /-- agreement of a result of the translated `nextChar` with a result of the model's -/
-def AgreeNext (opts : List Opt) (s0 : RS) : Option (Ctl RS Bool) → Option (Bool × St) → Prop
+def AgreeNext (opts : List Opt) (s0 : Gen.RS) : Option (Ctl Gen.RS Bool) → Option (Bool × St) → Prop
   | none, none => True
   | some (.ret b s), some (b', st') =>
     b = b' ∧ Rep opts st' s ∧ s.character = s0.character ∧ s.argument = s0.argument ∧ s.end_ = s0.end_ ∧
@@ -45,7 +47,7 @@ def AgreeNext (opts : List Opt) (s0 : RS) : Option (Ctl RS Bool) → Option (Boo
   | _, _ => False
 
 /-- agreement of a result of the translated `read` (or of a block of it) with a result of the model's -/
-def AgreeRead (opts : List Opt) : Option (Ctl RS Bool) → Option (Option Res × St) → Prop
+def AgreeRead (opts : List Opt) : Option (Ctl Gen.RS Bool) → Option (Option Res × St) → Prop
   | none, none => True
   | some (.ret true s), some (some r, st') => r = (s.character, s.argument) ∧ Rep opts st' s
   | some (.ret false s), some (none, st') => Rep opts st' s
